@@ -125,7 +125,3 @@ func cmdVerify(args []string) {
 	}
 }
 
-func cmdCheck(args []string) {
-	fmt.Fprintln(os.Stderr, "not yet")
-	os.Exit(2)
-}
